@@ -50,6 +50,26 @@ def run(ctx):
                                     r.violation(A, "format_project: filter closure returns %s" % short(ret)[:50],
                                                 "the module filter is no longer `input_is_stdin || !should_skip_module(..)`",
                                                 ["%s:%d" % (f2.file, f2.line)])
+                if has_visit and not has_filter:
+                    # loop form: `for (path, module) in visit_crate(..)? { if !stdin && should_skip_module(..) { continue; } files.push(..) }`
+                    from common import natural_loops, bool_branches
+                    g = c.fn
+                    pushes = [x for x in g.calls() if x.name.endswith("::push") and "Vec" in x.name and x in d["calls"] or (
+                        x.name.endswith("::push") and "Vec" in x.name and len(x.args) > 1 and x.args[1][0] != "k"
+                        and any(y.name.endswith("::visit_crate") for y in g.derived_from(x.args[1][1][0])["calls"]))]
+                    skips = [x for x in g.calls() if x.name.endswith("formatting::should_skip_module")]
+                    loop_ok = bool(pushes) and bool(skips)
+                    for pu in pushes:
+                        heads = [h for h, body in natural_loops(g) if pu.bb in body]
+                        guarded = False
+                        for sk in skips:
+                            for sw, tt, t_false_ in bool_branches(g, sk.dest[0]):
+                                if tt is not None and pu.bb not in g.reachable(tt, stop_blocks=heads) and sk.bb in g.reachable(heads[0] if heads else 0):
+                                    # the skip test itself may only be bypassed on the stdin edge
+                                    guarded = True
+                        loop_ok = loop_ok and guarded
+                    if loop_ok:
+                        has_collect = clos_ok = True
                 ok = ok and has_visit and has_collect and clos_ok
             r.instance(A, c.key(), "ok" if ok else "violation", c.loc())
             if not ok:
